@@ -121,3 +121,83 @@ structure FreshObs where
 def checkFresh (o : FreshObs) : Bool := o.noSpecObject && o.rerunSame
 
 end Glom.Interp
+
+/-!
+  ### self-referential containers in argument position (reference; exercised, not proved)
+
+  A container literal in argument position may contain itself (`d = {}; d['self'] = d`).  glom's
+  `_ArgValuator` rebuilds it with an id()-memo for lists and dicts: the result is a *fresh* object
+  graph with the same shape — one new list / dict per list / dict of the spec (shared nodes stay
+  shared, cycles stay cycles), tuples rebuilt structurally, leaves evaluated against the current
+  target.  `rebuild` computes that graph in canonical form: list / dict nodes numbered in
+  first-visit order (items left to right, a dict entry's key before its value), a later visit of
+  the same node is a `ref`.
+-/
+namespace Glom.Interp
+
+inductive GItem where
+  | ref (i : Nat)                 -- node `i` of the graph
+  | leaf (s : Spec)               -- a non-container spec (T, Spec, literal, callable …)
+  deriving Repr, Inhabited
+
+inductive GNode where
+  | list (xs : List GItem)
+  | dict (es : List (GItem × GItem))
+  | tuple (xs : List GItem)
+  deriving Repr, Inhabited
+
+inductive GOut where
+  | leaf (v : V)
+  | ref (n : Nat)
+  | list (n : Nat) (xs : List GOut)
+  | dict (n : Nat) (es : List (GOut × GOut))
+  | tuple (xs : List GOut)
+  deriving Repr, Inhabited
+
+/-- spec node ↦ number of the node rebuilt for it (the memo `self.cache[id(spec)]`) -/
+abbrev Memo := List (Nat × Nat)
+
+def pairUp : List GOut → List (GOut × GOut)
+  | k :: v :: rest => (k, v) :: pairUp rest
+  | _ => []
+
+mutual
+/-- `recur(val)` in `_ArgValuator.mode` -/
+def rebuildItem (ev : Spec → Except Err V) (nodes : List GNode) :
+    Nat → GItem → Memo → Except Err (GOut × Memo)
+  | 0, _, _ => .error ⟨"OutOfFuel"⟩
+  | _ + 1, .leaf s, memo => do
+    let v ← ev s
+    pure (.leaf v, memo)
+  | fuel + 1, .ref i, memo =>
+    match memo.find? (·.1 == i) with
+    | some (_, n) => pure (.ref n, memo)                       -- `return self.cache[id(spec)]`
+    | Option.none =>
+      match nodes[i]? with
+      | Option.none => .error ⟨"BadGraph"⟩
+      | some (.list xs) => do
+        let n := memo.length
+        let (ys, memo') ← rebuildItems ev nodes fuel xs ((i, n) :: memo)
+        pure (.list n ys, memo')
+      | some (.dict es) => do
+        let n := memo.length
+        let (ys, memo') ← rebuildItems ev nodes fuel (es.flatMap (fun e => [e.1, e.2])) ((i, n) :: memo)
+        pure (.dict n (pairUp ys), memo')
+      | some (.tuple xs) => do
+        let (ys, memo') ← rebuildItems ev nodes fuel xs memo
+        pure (.tuple ys, memo')
+def rebuildItems (ev : Spec → Except Err V) (nodes : List GNode) :
+    Nat → List GItem → Memo → Except Err (List GOut × Memo)
+  | 0, _, _ => .error ⟨"OutOfFuel"⟩
+  | _ + 1, [], memo => pure ([], memo)
+  | fuel + 1, x :: xs, memo => do
+    let (y, m1) ← rebuildItem ev nodes fuel x memo
+    let (ys, m2) ← rebuildItems ev nodes fuel xs m1
+    pure (y :: ys, m2)
+end
+
+/-- the rebuilt graph of `root`, or the first error a leaf raises -/
+def rebuild (ev : Spec → Except Err V) (nodes : List GNode) (root : GItem) : Except Err GOut :=
+  (rebuildItem ev nodes 4096 root []).map (·.1)
+
+end Glom.Interp
